@@ -189,6 +189,15 @@ struct Attrs {
     sparse: Vec<Option<f32>>,
     #[unique]
     uniq: u64,
+    /// left out of the serialised form when zero; the declared type is made
+    /// optional as the derive docs prescribe
+    #[field_type = "Option<U64>"]
+    #[serde(default, skip_serializing_if = "is_zero")]
+    lazy: u64,
+}
+
+fn is_zero(v: &u64) -> bool {
+    *v == 0
 }
 
 #[derive(Debug, Clone, PartialEq, Serialize, Deserialize, AndaDBSchema)]
@@ -489,6 +498,7 @@ fn attrs() -> Vec<Attrs> {
                 .clone(),
             sparse: [vec![], vec![None], vec![Some(-0.0), None, Some(f32::MAX)], vec![Some(1e-45)]][i].clone(),
             uniq: [0, 1, i64::MAX as u64 + 1, u64::MAX][i],
+            lazy: [0, 1, 0, u64::MAX][i],
         })
         .collect()
 }
@@ -789,7 +799,7 @@ fn main() {
     }
 
     run.rule(
-        "11 structs deriving AndaDBSchema (+ 3 nested FieldTyped structs + the built-in Resource) using every Rust field type the derive macros infer: u8..u64/usize, i8..i64/isize, f32, f64, bool, String, Cow<str>, Vec<u8>, [u8;N], serde_bytes ByteBuf/ByteArray, ByteBufB64/ByteArrayB64, Vec<bf16>, [bf16;N], Vector, Vec/BTreeSet/HashSet/[T;N] of T, BTreeMap/HashMap/serde_json::Map with String / signed-integer / bytes keys, Option (incl. nested in containers), Box, serde_json::Value / Json, nested structs (incl. serde rename / rename_all), and the attributes field_type (6 DSL forms), unique, serde rename / rename_all / skip; every row of each struct's boundary table (all rows, no sampling) is round-tripped T -> Document -> CBOR -> DocumentOwned -> Document -> T; plus 26 typed offers to another struct's schema with one defect each (wrong type, out of range, null, missing / extra field or nested key) that must be rejected; distinct = (struct, row) and offers",
+        "11 structs deriving AndaDBSchema (+ 3 nested FieldTyped structs + the built-in Resource) using every Rust field type the derive macros infer: u8..u64/usize, i8..i64/isize, f32, f64, bool, String, Cow<str>, Vec<u8>, [u8;N], serde_bytes ByteBuf/ByteArray, ByteBufB64/ByteArrayB64, Vec<bf16>, [bf16;N], Vector, Vec/BTreeSet/HashSet/[T;N] of T, BTreeMap/HashMap/serde_json::Map with String / signed-integer / bytes keys, Option (incl. nested in containers), Box, serde_json::Value / Json, nested structs (incl. serde rename / rename_all), and the attributes field_type (6 DSL forms), unique, serde rename / rename_all / skip / default + skip_serializing_if; every row of each struct's boundary table (all rows, no sampling) is round-tripped T -> Document -> CBOR -> DocumentOwned -> Document -> T; plus 26 typed offers to another struct's schema with one defect each (wrong type, out of range, null, missing / extra field or nested key) that must be rejected; distinct = (struct, row) and offers",
     );
     run.assume("a struct's own value being rejected by the schema its derive generated is reported as a violation (the typed round trip would otherwise be vacuous)");
     run.assume("not covered: Arc/Rc fields (serde `rc` feature is off), #[cbor(key = N)] nested keys (cbor2 derive feature is off), borrowed &str / slices (serialise-only); Some(None) / Some(Json null) inside Option are skipped because serde itself cannot tell them from None");
